@@ -337,8 +337,13 @@ def _unchanged(case, path, fs0, v0, ids, what, kinds):
                          [case, kinds])
     left = X.control_leftovers(path)
     if left:
-        return violation("C14/%s-limbo-left-after-finalize" % what,
-                         [case, left])
+        sig = "C14/%s-limbo-left-after-finalize" % what
+        if case.get("fmt") == "git" and any(
+                st[0] == "cancel_creation" for st in case.get("script", [])):
+            # open finding, own class: a git transform in which the creation
+            # of a new directory that holds other new entries was cancelled
+            sig += ":git-cancel_creation"
+        return violation(sig, [case, left])
     return ok("%s:%s:%s" % (case["fmt"], what, "+".join(kinds)[:60]))
 
 
